@@ -43,9 +43,9 @@ def cases(tier, seed):
   flagsets = [0, int(mujoco.mjtEnableBit.mjENBL_SLEEP), 0, int(mujoco.mjtEnableBit.mjENBL_ENERGY), 0, int(mujoco.mjtEnableBit.mjENBL_SLEEP)]
   for i in range(n):
     prof = ("full", "free", "joints")[i % 3]
-    en = flagsets[i % len(flagsets)]
+    en = flagsets[(i // 3) % len(flagsets)]  # every profile meets every flag set
     dis = 0
-    if i % 6 == 5:
+    if i % 11 == 5:
       dis = int(mujoco.mjtDisableBit.mjDSBL_ISLAND)
     sc = {"kind": "gen", "seed": seed * 100000 + i, "profile": prof, "opt": {"enable": en, "disable": dis}}
     if en & int(mujoco.mjtEnableBit.mjENBL_SLEEP):
